@@ -36,6 +36,10 @@ func (list *List) LPop(count int) ([]string, bool) {
 	if count < 1 {
 		return nil, false
 	}
+	// No more elements than the list holds can be popped.
+	if len(list.elements) < count {
+		count = len(list.elements)
+	}
 	elems := []string{}
 	for n := 0; n < count; n++ {
 		if len(list.elements) < 1 {
@@ -57,6 +61,10 @@ func (list *List) LPush(elems []string) int {
 func (list *List) RPop(count int) ([]string, bool) {
 	if count < 1 {
 		return nil, false
+	}
+	// No more elements than the list holds can be popped.
+	if len(list.elements) < count {
+		count = len(list.elements)
 	}
 	elems := []string{}
 	for n := 0; n < count; n++ {
@@ -80,6 +88,13 @@ func (list *List) Range(start int, stop int) []string {
 	}
 	if stop < 0 {
 		stop = len(list.elements) + stop
+	}
+	// Only the existing indexes have to be visited.
+	if start < 0 {
+		start = 0
+	}
+	if (len(list.elements) - 1) < stop {
+		stop = len(list.elements) - 1
 	}
 	elems := []string{}
 	for n := start; n <= stop; n++ {
